@@ -5,3 +5,13 @@ import RdfModel.Props.C11Ra
 #print axioms RdfModel.C11Ra.rootless_body_panics
 #print axioms RdfModel.C11Ra.rdfa_refines_denote_partial
 #print axioms RdfModel.C11Ra.rdfa_refines_denote_resource_partial
+#print axioms RdfModel.C11Ra.rdfa_driver_no_panic_wf
+#print axioms RdfModel.C11Ra.driver_env_ok
+#print axioms RdfModel.C11Ra.rdfa_resolve_text
+#print axioms RdfModel.C11Ra.rdfa_refines_denote_literal_text_partial
+#print axioms RdfModel.C11Ra.rdfa_refines_denote_resource_text_partial
+#print axioms RdfModel.C11Ra.rdfa_refines_denote_typed_partial
+#print axioms RdfModel.C11Ra.rdfa_refines_denote_typeof_partial
+#print axioms RdfModel.C11Ra.rdfa_refines_denote_chaining_partial
+#print axioms RdfModel.C11Ra.rdfa_refines_denote_inlist_partial
+#print axioms RdfModel.C11Ra.rdfa_refines_denote_rev_chaining_partial
